@@ -309,6 +309,9 @@ class Interp:
             "builtins.print": lambda *a, **k: None,
             "builtins.getattr": lambda o, a, *d: self._getattr_default(o, a, d),
             "itertools.starmap": lambda f, it: [ap(f, *xs) for xs in self.iterate(it)],
+            "itertools.takewhile": lambda f, it: list(__import__("itertools").takewhile(lambda x: self.truth(ap(f, x)), self.iterate(it))),
+            "itertools.dropwhile": lambda f, it: list(__import__("itertools").dropwhile(lambda x: self.truth(ap(f, x)), self.iterate(it))),
+            "itertools.filterfalse": lambda f, it: [x for x in self.iterate(it) if not (self.truth(ap(f, x)) if f is not None else self.truth(x))],
         }
         return table.get(name)
 
@@ -397,6 +400,8 @@ class Interp:
                 raise AbsRaise(f"{type(e).__name__}: {e}")
         if isinstance(f, Obj) and "__call__" in f.attrs:
             return self.call(f.attrs["__call__"], args, kwargs, where)
+        if isinstance(f, Obj) and getattr(f, "cls", None) is not None and hasattr(f.cls, "lookup") and isinstance(f.cls.lookup("__call__"), Func):
+            return self.call_func(f.cls.lookup("__call__"), None, args, kwargs, f)   # an instance of a class of the package that defines __call__
         raise AnalysisError(f"evaluator: value {f!r} is not callable ({where})")
 
     def call_func(self, func: Func, closure_env, args, kwargs, bound_self=None):
@@ -706,6 +711,8 @@ class Interp:
             except AbsBlocked:
                 raise
             except AbsRaise as e_:
+                if exits:
+                    self.tb_here(e_.value, env)   # the frame of the `with` is part of the traceback its __exit__ receives
                 left = _unwind(exits, e_)
                 if left is e_:
                     raise
@@ -1004,9 +1011,24 @@ class Interp:
                     out.append(self.eval(x, env))
             return out
         if isinstance(e, ast.Set):
-            return {self.eval(x, env) for x in e.elts}
+            out = set()
+            for x in e.elts:
+                if isinstance(x, ast.Starred):
+                    out.update(self.iterate(self.eval(x.value, env)))
+                else:
+                    out.add(self.eval(x, env))
+            return out
         if isinstance(e, ast.Dict):
-            return {self.eval(k, env): self.eval(v, env) for k, v in zip(e.keys, e.values)}
+            out = {}
+            for k, v in zip(e.keys, e.values):
+                if k is None:   # {**other}
+                    other = self.eval(v, env)
+                    if not isinstance(other, dict):
+                        raise AnalysisError("evaluator: `**` of a value that is not a dict in a dict display")
+                    out.update(other)
+                else:
+                    out[self.eval(k, env)] = self.eval(v, env)
+            return out
         if isinstance(e, (ast.ListComp, ast.SetComp, ast.GeneratorExp, ast.DictComp)):
             return self.comprehension(e, env)
         if isinstance(e, ast.NamedExpr):
@@ -1027,12 +1049,24 @@ class Interp:
             return "".join(out)
         raise AnalysisError(f"evaluator: expression `{norm(e)}` outside the supported language")
 
+    def _is_abstract_exception(self, v):
+        """An abstract exception value (a raised token, an object of an exception class of the package): `isinstance` against a
+        library exception class is decided by the class names it is known to be an instance of, as `except` clauses are."""
+        if isinstance(v, Obj) and v.cls is not None:
+            return any(n_ in ("BaseException", "Exception") for n_ in self._exc_names(v)) and \
+                any((c_ if isinstance(c_, str) else c_.name).split(".")[-1] in dir(__import__("builtins")) for c_ in v.cls.mro())
+        if isinstance(v, Obj):
+            return bool(v.name) and ("__traceback__" in v.attrs or v.name.endswith(("Error", "Exception", "Exit", "Interrupt")))
+        return isinstance(v, str) and v[:1].isupper() and v.split(":")[0].strip().isidentifier()
+
     def isinstance_(self, v, c):
         if isinstance(c, tuple):
             return any(self.isinstance_(v, x) for x in c)
         if isinstance(c, ClassVal):
             return isinstance(v, Obj) and v.cls is not None and c.cls in v.cls.repo_mro()
         if isinstance(c, type):
+            if issubclass(c, BaseException) and self._is_abstract_exception(v):
+                return c.__name__ in self._exc_names(v)
             return isinstance(v, c) and not isinstance(v, (Obj, Native))
         if isinstance(c, Stub):
             py = {"builtins.int": int, "builtins.str": str, "builtins.tuple": tuple, "builtins.list": list,
@@ -1045,6 +1079,8 @@ class Interp:
                 lv_ = _lib_value(c.name)
                 py = lv_ if isinstance(lv_, type) else None
             if py is not None:
+                if isinstance(py, type) and issubclass(py, BaseException) and self._is_abstract_exception(v):
+                    return py.__name__ in self._exc_names(v)
                 return isinstance(v, py) and not isinstance(v, Obj)
             return False
         raise AnalysisError(f"evaluator: isinstance against {c!r}")
@@ -1170,7 +1206,7 @@ def _unwind(exits, exc):
         try:
             if cur is None:
                 x_(None, None, None)
-            elif x_("exc", cur.value, None):
+            elif x_("exc", cur.value, cur.value.attrs.get("__traceback__") if isinstance(cur.value, Obj) else None):
                 cur = None
         except AbsRaise as e2:
             cur = e2
